@@ -313,6 +313,18 @@ class Run(object):
         self._log_op(["done", a["task"], a["route"], a["item"]], extra=repr(ev["exc"])[:200] if ev["exc"] is not None else None)
         return ev
 
+    def report_status(self, i, status):
+        """a non-final status report of in-flight action i (e.g. `canceling`, `pausing`)"""
+        self.step += 1
+        a = self.inflight[i]
+        self.script.append(["status", a["task"], a["route"], a["item"], status])
+        evx = (events.TaskItemActionExecutionEvent(a["item"], status) if a["item"] is not None
+               else events.ActionExecutionEvent(status))
+        ev = self._call("ack", [a["task"], a["route"], a["item"], status], self.c.update_task_state, a["task"], a["route"], evx)
+        self.trace.append(("status", a["task"], a["route"], a["item"], status,
+                           "EXC " + repr(ev["exc"])[:160] if ev["exc"] is not None else ev["post"]["status"]))
+        return ev
+
     def reset_accum(self, task, route):
         self.accum.pop((task, route), None)
 
@@ -370,6 +382,9 @@ class Run(object):
                 self.notes.setdefault("replay_divergence", []).append(op)
                 return None
             return self.complete(i, op[4], op[5])
+        if k == "status":
+            i = self.find_inflight(op[1], op[2], op[3])
+            return self.report_status(i, op[4]) if i is not None else None
         if k == "render":
             return self.render()
         if k == "rerun":
